@@ -247,7 +247,7 @@ def self_validate(prop, tier, repo_root, rep, seed):
     table = V.get(prop, [])
     if not table:
         return
-    if any(i['verdict'] == 'violation' for i in rep.instances) and tier == 'quick':
+    if rep.unlisted_violations():
         return      # the tree itself is reported; variants on top of it say nothing
     fs = [v for v in table if v[4] == 'F']
     ss = [v for v in table if v[4] == 'S']
@@ -272,7 +272,7 @@ def self_validate(prop, tier, repo_root, rep, seed):
                'table_size': len(table)}
     rep.self_validation = summary
     failed = [r for r in results if r[2] == 'FAILED']
-    base_clean = not any(i['verdict'] == 'violation' for i in rep.instances)
+    base_clean = not rep.unlisted_violations()
     if failed and base_clean and tier == 'thorough':
         raise AnalysisError('self validation failed: %s' % '; '.join('%s [%s] %s' % (r[0], r[1], r[3]) for r in failed[:3]))
 
